@@ -81,6 +81,7 @@ func init() {
 	reg("unimpld", Leaf, 2, ix(0), ix(1), true, 1) // issue link with a detail but no URL
 	reg("domnew", Leaf, 1, ix(0), nil, true, 1)
 	reg("gstatus", Leaf, 1, nil, ix(0), true, 1)
+	reg("gstatusf", Leaf, 2, ix(1), ix(0), true, 1) // grpc/status.Errorf: safe format, unsafe argument
 	reg("errorf", Leaf, 3, ix(1), ix(0, 2), true, 1)
 	reg("unimplf", Leaf, 4, ix(0, 1), ix(2, 3), true, 1)
 	reg("protoleaf", Leaf, 0, nil, nil, true, 1)
@@ -102,6 +103,7 @@ func init() {
 	reg("isleaf", Leaf, 1, ix(0), nil, false, 1)
 	reg("lowleaf", Leaf, 1, ix(0), nil, false, 1)
 	reg("asleaf", Leaf, 1, ix(0), nil, false, 1)
+	reg("fmtargleaf", Leaf, 2, ix(0, 1), nil, false, 1) // FormatError prints an error VALUE as a format argument
 	reg("hdleaf", Leaf, 3, ix(0, 1, 2), nil, false, 1) // third-party leaf with its own hint and detail
 	reg("stacksafeleaf", Leaf, 2, ix(0), ix(1), false, 0) // weight 0: only placed explicitly (C12, C15); an unregistered type loses its stack in transfer
 	// library wrappers
@@ -121,6 +123,8 @@ func init() {
 	reg("safedetails", Wrap, 3, ix(1), ix(0, 2), true, 2)
 	reg("telemetry", Wrap, 2, nil, ix(0, 1), true, 2)
 	reg("domain", Wrap, 1, nil, ix(0), true, 2)
+	reg("domainraw", Wrap, 1, nil, ix(0), true, 1)    // a domain declared directly from the exported string type (no "error domain:" prefix)
+	reg("withstackdeep", Wrap, 0, nil, nil, true, 1) // WithStackDepth far beyond the bottom of the goroutine stack: a stack layer without frames
 	reg("domainnone", Wrap, 0, nil, nil, true, 1) // WithDomain(e, NoDomain): the boundary value
 	reg("issuelink", Wrap, 2, nil, ix(0, 1), true, 2)
 	reg("issuelinkd", Wrap, 1, nil, ix(0), true, 1) // detail only, no URL
@@ -155,6 +159,7 @@ func init() {
 	reg("fmtrwrap", Wrap, 1, ix(0), nil, false, 1)
 	reg("elidewrap", Wrap, 1, ix(0), nil, false, 1)
 	reg("lowwrap", Wrap, 1, ix(0), nil, false, 1)
+	reg("oldfmtelide", Wrap, 1, ix(0), nil, false, 1) // old-style Format, Error() replaces the cause's text
 	reg("hdwrap", Wrap, 3, ix(0, 1, 2), nil, false, 1) // third-party wrapper with its own hint and detail
 	reg("ncwrap", Wrap, 1, ix(0), nil, false, 1)       // value-typed, not comparable
 	// barriers
@@ -222,6 +227,12 @@ var RuntimeErrors = func() []error {
 
 // Errnos the "errno" kind indexes with N[0].
 var Errnos = []syscall.Errno{syscall.ENOENT, syscall.EACCES, syscall.EEXIST, syscall.EAGAIN, syscall.ETIMEDOUT, syscall.EPERM, syscall.EINTR, syscall.ECONNREFUSED}
+
+// OneLine replaces newlines: a domain declared directly from the string type doubles, unescaped,
+// as the layer's type-mark extension, which the report prints one per line (NamedDomain escapes).
+func OneLine(s string) string {
+	return strings.NewReplacer("\n", " ", "\r", " ").Replace(s)
+}
 
 func esc(s string) string { return strings.ReplaceAll(s, "%", "%%") }
 
@@ -291,6 +302,9 @@ func Build1(n *Node, m Built) error {
 		return domains.New(S[0])
 	case "gstatus":
 		return gstatus.Error(codes.Code(n.N[0]), S[0])
+	case "gstatusf":
+		return gstatus.Errorf(codes.Code(n.N[0]), esc(S[0])+" %s", S[1])
+
 	// ---- foreign leaves
 	case "goerr":
 		return goErr.New(S[0])
@@ -316,6 +330,8 @@ func Build1(n *Node, m Built) error {
 		return &FmtrLeaf{S[0]}
 	case "ncleaf":
 		return NCLeaf{Msg: S[0], X: []int{1}}
+	case "fmtargleaf":
+		return &FmtArgLeaf{S[0], goErr.New(S[1])}
 	case "hdleaf":
 		return &HDLeaf{S[0], S[1], S[2]}
 	case "isleaf":
@@ -363,6 +379,10 @@ func Build1(n *Node, m Built) error {
 		return errors.WithDomain(kids[0], errors.NamedDomain(S[0]))
 	case "domainnone":
 		return errors.WithDomain(kids[0], errors.NoDomain)
+	case "domainraw":
+		return errors.WithDomain(kids[0], errors.Domain(OneLine(S[0])))
+	case "withstackdeep":
+		return errors.WithStackDepth(kids[0], 100000)
 	case "issuelink":
 		return errors.WithIssueLink(kids[0], errors.IssueLink{IssueURL: S[0], Detail: S[1]})
 	case "issuelinkd":
@@ -435,6 +455,8 @@ func Build1(n *Node, m Built) error {
 		return &ElideWrap{kids[0], S[0]}
 	case "lowwrap":
 		return &LOW{Msg: S[0], C: kids[0]}
+	case "oldfmtelide":
+		return &OldFmtElideWrap{kids[0], S[0]}
 	case "hdwrap":
 		return &HDWrap{kids[0], S[0], S[1], S[2]}
 	case "ncwrap":
